@@ -637,6 +637,9 @@ def enumerate_sites(fx, reach):
             yield s
 
 
+_REF_ARITH = re.compile(r'^<&?(?:mut )?((?:i|u)(?:8|16|32|64|128|size)) as core::ops::(arith|bit)::\w+(?:<[^>]*>)?>::(add|sub|mul|neg|div|rem|shl|shr|add_assign|sub_assign|mul_assign|div_assign|rem_assign)$')
+
+
 def sites_of(f, only_blocks=None):
     fn = f.name
     for bb in sorted(f.reachable_blocks()):
@@ -653,7 +656,20 @@ def sites_of(f, only_blocks=None):
                    'cond': f.expr_of_operand(t['cond'])}
         elif t['k'] == 'call':
             c = callee_of(t) or ''
-            if c in PRECOND:
+            m = _REF_ARITH.match(c)
+            if m:
+                # `a + b` where an operand is a reference goes through the std operator impl, which inherits the caller's
+                # overflow checks: the same panic as the built-in operator, without an Assert terminator in this body
+                op = {'add': 'Add', 'sub': 'Sub', 'mul': 'Mul', 'neg': 'Neg', 'div': 'Div', 'rem': 'Rem', 'shl': 'Shl', 'shr': 'Shr',
+                      'add_assign': 'Add', 'sub_assign': 'Sub', 'mul_assign': 'Mul', 'div_assign': 'Div', 'rem_assign': 'Rem'}[m.group(3)]
+                ops = [f.expr_of_operand(o) for o in t['args']]
+                kind = 'OverflowNeg' if op == 'Neg' else ('DivisionByZero' if op == 'Div' else 'RemainderByZero' if op == 'Rem' else 'Overflow(%s)' % op)
+                site = {'fn': fn, 'bb': bb, 'kind': kind, 'ops': ops, 'raw': t['args'], 'at': t.get('at'), 'term': t, 'exp': t.get('exp'),
+                        'int_ty': m.group(1), 'via_ref_impl': True}
+                if kind in ('DivisionByZero', 'RemainderByZero'):
+                    site['cond'] = ('bin', 'Eq', ops[1], ('const', {'v': 0, 't': 0})) if len(ops) > 1 else None
+                yield site
+            elif c in PRECOND:
                 ops = [f.expr_of_operand(o) for o in t['args']]
                 yield {'fn': fn, 'bb': bb, 'kind': 'call:' + PRECOND[c] + ':' + short(c).split('::')[-1], 'ops': ops, 'raw': t['args'], 'at': t.get('at'),
                        'term': t, 'callee': c, 'exp': t.get('exp')}
@@ -709,7 +725,9 @@ def auto_discharge(fx, f, s, tainted_params):
     kind = s['kind']
     ops = s['ops']
     if kind.startswith('Overflow(') or kind in ('OverflowNeg', 'DivisionByZero', 'RemainderByZero', 'BoundsCheck'):
-        tys = [type_of_operand(f, o) for o in s['raw']]
+        tys = [type_of_operand(f, o).lstrip('&').replace('mut ', '') for o in s['raw']]
+        if s.get('int_ty'):
+            tys = [s['int_ty'] if t_ not in BITS else t_ for t_ in tys]
         z, gtxt = build_zone(f, s['bb'], ops)
         for o, ty in zip(ops, tys):
             if ty in UNSIGNED:
@@ -1168,6 +1186,7 @@ def run(rep, facts, tier):
                     (s['kind'], short(s['fn']), [expr_str(strip(o), -6)[:70] for o in s['ops']], ' [user-controlled operand]' if taint else ''),
                     s['fn'], s['at'])
     rep.floor('C08 panic-capable sites', n_sites, 250)
+    check_recursion(rep, fx, reach)
     stale = sorted(set(table) - used)
     for k in stale:
         rep.note('reviewed table entry no longer matches any site (stale): %s' % k)
@@ -1175,6 +1194,72 @@ def run(rep, facts, tier):
     rep.extra['sites_enumerated'] = n_sites
     rep.extra['tainted_params'] = len(tainted_params)
     rep.extra['reviewed_table_entries'] = len(table)
+
+
+# recursive components of the call graph in scope: what bounds their depth
+RECURSION_REVIEWED = {
+    '<cell::Cell as core::fmt::Debug>::fmt': 'depth = nesting depth of the printed value; a value nested deeply enough to matter has to be built by '
+                                              'running code first (instruction limit / modest allocation, the property\'s provisos)',
+    'bitstr_ext::bitstr_concat': 'depth = nesting depth of the vector argument (same proviso)',
+    'state::join_str_vec': 'depth = nesting depth of the vector argument (same proviso)',
+    'state::State::next_token': 'one level per input exhausted at the same moment: bounded by the include nesting, each level a file that was opened',
+    'state::State::fetch_and_run': 'Resolve re-dispatches the instruction it has just patched, which is no longer Resolve: depth 1',
+}
+
+
+def check_recursion(rep, fx, reach):
+    """stack exhaustion is a crash like any other.  Every cycle of the call graph in scope must have a stated bound on its depth
+    that does not come from the source text alone (a source is not executed, so no instruction or stack limit stops a parser
+    that recurses on nesting)."""
+    g = {n: {c for c in fx.callgraph().get(n, ()) if c in reach} for n in reach}
+    index, low, st, on, comps, counter = {}, {}, [], set(), [], [0]
+
+    def sc(v):
+        work = [(v, iter(sorted(g.get(v, ()))))]
+        index[v] = low[v] = counter[0]
+        counter[0] += 1
+        st.append(v)
+        on.add(v)
+        while work:
+            node, it = work[-1]
+            adv = False
+            for w in it:
+                if w not in index:
+                    index[w] = low[w] = counter[0]
+                    counter[0] += 1
+                    st.append(w)
+                    on.add(w)
+                    work.append((w, iter(sorted(g.get(w, ())))))
+                    adv = True
+                    break
+                elif w in on:
+                    low[node] = min(low[node], index[w])
+            if adv:
+                continue
+            work.pop()
+            if work:
+                low[work[-1][0]] = min(low[work[-1][0]], low[node])
+            if low[node] == index[node]:
+                comp = []
+                while True:
+                    w = st.pop()
+                    on.discard(w)
+                    comp.append(w)
+                    if w == node:
+                        break
+                if len(comp) > 1 or node in g.get(node, ()):
+                    comps.append(sorted(comp))
+    for v in sorted(g):
+        if v not in index:
+            sc(v)
+    for comp in comps:
+        key = 'C08:recursion:' + '+'.join(short(c).split('::')[-1] if len(comp) > 1 else c for c in comp)
+        why_ok = RECURSION_REVIEWED.get(comp[0]) if len(comp) == 1 else None
+        f0 = fx.fns[comp[0]]
+        rep.add('C08', key, why_ok is not None, 'D-REVIEWED recursion: ' + (why_ok or '') if why_ok else
+                'functions %s call each other without a bound on the depth that a limit could enforce: nesting in the input alone '
+                'drives the native stack to exhaustion' % [short(c) for c in comp], comp[0], f0.j['span'])
+    rep.extra['recursive_components'] = len(comps)
 
 
 def try_discharge(fx, f, s, key, tainted_params, table, used):
